@@ -222,3 +222,114 @@ def density_source():
             raise Unreadable("density of %s is not a numeric literal: %r" % (key, seg))
         rows.append((key, dec(seg)))
     return rows
+
+
+# --------------------------------------------------------------------------- nsf.py / nsf_tables.py
+
+def nsf_source():
+    """raw text of nsftable / nsftableI, ABSORPTION_WAVELENGTH"""
+    tree = translate.module_ast("periodictable/nsf.py")
+    out = {}
+    for name in ("nsftable", "nsftableI"):
+        v = translate.literal(tree, name)
+        if not isinstance(v, str):
+            raise Unreadable("nsf.%s is not a string literal" % name)
+        out[name] = v
+    out["ABSORPTION_WAVELENGTH"] = dec(translate.number_text("periodictable/nsf.py", "ABSORPTION_WAVELENGTH"))
+    return out
+
+
+def read_fix(text: str):
+    """a numeric column of the neutron table: '' missing, '<v' a limit, 'v*' / 'v(u)*' an
+    estimate – all read as the bare number (with its uncertainty kept in the reading)"""
+    t = text
+    if t.startswith("<"):
+        t = t[1:]
+    if t.endswith("*"):
+        t = t[:-1]
+    if "<" in t or "*" in t:
+        raise Unreadable("neutron table field %r" % text)
+    return read_unc(t)
+
+
+def read_nsf(text: str):
+    """[dict(z, sym, a, p, spin, b_c, bp, bm, isE, coh, inc, tot, abs)]; a = 0 for element rows;
+    p = None for a half-life, else a reading ('missing' when blank; not read for element rows)"""
+    rows = []
+    for line in text.split("\n"):
+        c = line.split(",")
+        if len(c) != 11:
+            raise Unreadable("nsftable line with %d columns: %r" % (len(c), line))
+        m = re.fullmatch(r"([0-9]+)-([^-]*)(?:-([0-9]+))?", c[0])
+        if not m:
+            raise Unreadable("nsftable key %r" % c[0])
+        a = int(m.group(3)) if m.group(3) is not None else 0
+        if a == 0:
+            p = ("missing",)
+        elif " " in c[1]:
+            if not re.fullmatch(r"[0-9.eE+-]+ [A-Za-z]+", c[1]):
+                raise Unreadable("nsftable half-life %r" % c[1])
+            p = None
+        else:
+            p = read_fix(c[1])
+        rows.append(dict(z=int(m.group(1)), sym=m.group(2), a=a, p=p, spin=c[2],
+                         b_c=read_fix(c[3]), bp=read_fix(c[4]), bm=read_fix(c[5]), isE=(c[6] == "E"),
+                         coh=read_fix(c[7]), inc=read_fix(c[8]), tot=read_fix(c[9]), abs=read_fix(c[10])))
+    return rows
+
+
+def read_nsf_imag(text: str):
+    """[dict(z, a, b_c_i, bp_i, bm_i)]"""
+    rows = []
+    for line in text.split("\n"):
+        c = line.split(",")
+        if len(c) != 4:
+            raise Unreadable("nsftableI line %r" % line)
+        m = re.fullmatch(r"([0-9]+)-([^-]*)(?:-([0-9]+))?", c[0])
+        if not m:
+            raise Unreadable("nsftableI key %r" % c[0])
+        rows.append(dict(z=int(m.group(1)), sym=m.group(2), a=int(m.group(3)) if m.group(3) else 0,
+                         b_c_i=read_fix(c[1]), bp_i=read_fix(c[2]), bm_i=read_fix(c[3])))
+    return rows
+
+
+def _num_node(text, node):
+    """exact Dec of a numeric literal node (possibly negated)"""
+    neg = False
+    while isinstance(node, ast.UnaryOp) and isinstance(node.op, (ast.USub, ast.UAdd)):
+        if isinstance(node.op, ast.USub):
+            neg = not neg
+        node = node.operand
+    seg = ast.get_source_segment(text, node)
+    if not isinstance(node, ast.Constant) or seg is None or not re.fullmatch(NUM, seg.strip()):
+        raise Unreadable("not a numeric literal: %r" % seg)
+    d = dec(seg)
+    return Dec(-d.m, d.e) if neg else d
+
+
+def energy_tables_source():
+    """[(symbol, A | 0, [(E_eV, re, im, absval)])] from nsf_tables.ENERGY_DEPENDENT_TABLES (dict order)"""
+    rel = "periodictable/nsf_tables.py"
+    tree = translate.module_ast(rel)
+    node = translate.assigned(tree, "ENERGY_DEPENDENT_TABLES")
+    text = translate.src(rel)
+    if not isinstance(node, ast.Dict):
+        raise Unreadable("ENERGY_DEPENDENT_TABLES is not a dict literal")
+    out = []
+    for k, v in zip(node.keys, node.values):
+        try:
+            key = ast.literal_eval(k)
+        except (ValueError, TypeError):
+            raise Unreadable("ENERGY_DEPENDENT_TABLES key is not a literal")
+        if not (isinstance(key, tuple) and len(key) == 2 and isinstance(key[0], str)
+                and (key[1] is None or isinstance(key[1], int))):
+            raise Unreadable("ENERGY_DEPENDENT_TABLES key %r" % (key,))
+        if not isinstance(v, (ast.List, ast.Tuple)):
+            raise Unreadable("ENERGY_DEPENDENT_TABLES[%r] is not a list literal" % (key,))
+        rows = []
+        for r in v.elts:
+            if not isinstance(r, (ast.List, ast.Tuple)) or len(r.elts) != 4:
+                raise Unreadable("ENERGY_DEPENDENT_TABLES[%r] row is not a 4-list" % (key,))
+            rows.append(tuple(_num_node(text, e) for e in r.elts))
+        out.append((key[0], key[1] or 0, rows))
+    return out
